@@ -144,7 +144,8 @@ func (e *Engine) frameFormula(st *State) Term {
 		guard += ")"
 		cs = append(cs, T(SBool, "(forall ((q_r Int)) (! (=> %s (= (select %s q_r) (select %s q_r))) :pattern ((select %s q_r))))", guard, cur.S, init.S, cur.S))
 	}
-	if !anyMaps {
+	if !anyMaps && !e.atomicMode() {
+		// (in atomic mode the abstract maps are shared state that other goroutines change)
 		cs = append(cs, e.mapFrame(st, amaps)...)
 	}
 	ach, anyCh := e.rootAssignedChans()
